@@ -866,6 +866,14 @@ def c04_exit_order(ctx, M):
 
 # ------------------------------------------------------------------ C05 If-Range gate
 
+def _is_tag_comparator_call(ctx, e):
+    """a call (in the serve function or in one of its expanded helpers) of a crate-local fn(&[u8], &[u8]) -> bool"""
+    if e["k"] != "call" or not e["callee"].get("res_local") or e["dest"]["ty"].get("k") != "bool" or len(e["args"]) != 2:
+        return False
+    b = ctx.facts.bodies.get(e["callee"].get("res_path"))
+    return bool(b) and b["arg_count"] == 2 and all(b["locals"][i]["s"].endswith("[u8]") for i in (1, 2))
+
+
 def c05_gate(ctx, M):
     nkeep = ndrop = 0
     classes = {}
@@ -885,8 +893,7 @@ def c05_gate(ctx, M):
         etag_form = r.atoms.get("starts_with('W/\"')") == 1 or r.atoms.get("starts_with('\"')") == 1
         seq = r.atoms.get("strong_eq")
         # which comparator was used at the gate (if any)?
-        cmp_ev = [e for e in r.o.events if e["k"] == "call" and e["callee"].get("res_local") and e["dest"]["ty"].get("k") == "bool"
-                  and e["fn"] == M["inner"] and len(e["args"]) == 2]
+        cmp_ev = [e for e in r.o.events if _is_tag_comparator_call(ctx, e)]
         cmp_true = None
         for e in cmp_ev:
             res = e.get("result")
@@ -931,7 +938,7 @@ def c05_gate(ctx, M):
     names = set()
     for r in ok_rows(M):
         for e in r.o.events:
-            if e["k"] == "call" and e["callee"].get("res_local") and e["dest"]["ty"].get("k") == "bool" and e["fn"] == M["inner"] and len(e["args"]) == 2:
+            if _is_tag_comparator_call(ctx, e):
                 names.add(e["callee"]["res_path"])
     for nme in sorted(names):
         kind, why = etagcmp.comparator_kind(ctx, nme)
